@@ -462,7 +462,7 @@ PROPS['C20'] = dict(
                'through the table\'s allocator throwing bad_alloc, for every k (sampled to 60 per history in the quick tier), transient and persistent, and once more with the k-th call of the global operator new made '
                'inside a library call throwing (temporaries of permuteDimensions, convolve, the stacking constructor, string streams; sampled to 40 per history); LeakSanitizer covers memory outside the allocator. '
                'The histories include the stacking constructor (valid and invalid requests; a stack of identical tables must be constant along the new dimension).',
-    level_note=NOTE_COMMON + '; move assignment into a populated target is implemented by swap: the source must then hold the target\'s former contents (valid, owned, released once)',
+    level_note=NOTE_COMMON + '',
     technique='runtime monitor: checking allocator ledger + abstract state model + allocation-failure enumeration, under ASan/UBSan/LSan',
     targets=[T('h_mem.cpp', 'asan')],
     passes=lambda tier, sc: [Pass('asan', 'h_mem.asan', 'C20', n(tier, 320, 3000, sc), env=LEAK_ENV, stall_s=600)],
